@@ -96,6 +96,8 @@ def gen_cases(tier, seed):
             desc = {'n': mg.number_of_nodes(), 'edges': sorted([sorted(e) for e in mg.edges()]), 'labels': desc['labels'], 'multi': True}
         out.append({'kind': kind, 'graph': desc, 'tau': r.choice([0.4, 0.8, 1.5, 3.0]), 'gamma': r.choice([0.5, 1.0, 2.0]), 'rho': r.choice([0.01, 0.05, 0.2]),
                     'p': r.choice([0.2, 0.45, 0.7, 0.95]), 'model_idx': j // len(kinds), 'seed': cs, 'tmin': r.choice([0, 0, 1.5, -2])})
+        if kind == 'final_d' and r.random() < 0.3:
+            out[-1]['rho'] = r.choice([1e-5, 1e-9, 1e-12])       # one index case in a very large population (the first iterates barely move)
     return out
 
 
